@@ -1827,6 +1827,10 @@ fn bits0_class(_: &[u8]) -> String {
     "bits=0".to_string()
 }
 
+fn level_ge_bits_class(_: &[u8]) -> String {
+    "agg-param-level>=bits".to_string()
+}
+
 /// Entries whose decoding parameter is the publicly constructible but degenerate `bits = 0`
 /// (`Poplar1::new(0)`, `IdpfPublicShare` with `bits = 0`). They have no honest values; C08 probes
 /// them separately and reports under the argument class `bits=0`, so that the decision about them
@@ -1860,6 +1864,37 @@ pub fn degenerate_entries() -> Vec<Box<dyn Entry>> {
         arg_class: bits0_class,
         tagged: false,
     }));
+    // Decoding parameters that do not fit together: an aggregation parameter (decodable from the wire at any
+    // level up to 65535) whose level is AT or BEYOND the instance's bit length. Output / aggregate shares and
+    // verifier messages decoded under such a pair must give a value or an error, never a panic.
+    for (bits, level) in [(1usize, 1usize), (4, 4), (4, 5), (4, 100), (8, 65535), (64, 64), (64, 300)] {
+        let pb: Rc<Poplar1<XofTurboShake128, 32>> = Rc::new(Poplar1::new_turboshake128(bits));
+        let apb = Rc::new(Poplar1AggregationParam::try_from_prefixes(vec![IdpfInput::from_bools(&vec![false; level + 1]), IdpfInput::from_bools(&vec![true; level + 1])]).expect("harness: two prefixes"));
+        let (v, a) = (pb.clone(), apb.clone());
+        out.push(Box::new(Codec::<<Poplar1<XofTurboShake128, 32> as prio::vdaf::Vdaf>::OutputShare> {
+            name: format!("Poplar1FieldVec(output-share)|Poplar1<ts,32>(bits={bits})+agg-param(level={level})"),
+            class: "Poplar1FieldVec(output-share)".into(),
+            nominal: 64,
+            dec: Box::new(move |b| ParameterizedDecode::get_decoded_with_param(&(&*v, &*a), b)),
+            eq: None,
+            make: Box::new(|_| vec![]),
+            layout: Box::new(|_| None),
+            arg_class: level_ge_bits_class,
+            tagged: false,
+        }));
+        let (v, a) = (pb.clone(), apb.clone());
+        out.push(Box::new(Codec::<<Poplar1<XofTurboShake128, 32> as prio::vdaf::Vdaf>::AggregateShare> {
+            name: format!("Poplar1FieldVec(aggregate-share)|Poplar1<ts,32>(bits={bits})+agg-param(level={level})"),
+            class: "Poplar1FieldVec(aggregate-share)".into(),
+            nominal: 64,
+            dec: Box::new(move |b| ParameterizedDecode::get_decoded_with_param(&(&*v, &*a), b)),
+            eq: None,
+            make: Box::new(|_| vec![]),
+            layout: Box::new(|_| None),
+            arg_class: level_ge_bits_class,
+            tagged: false,
+        }));
+    }
     out.push(Box::new(Codec::<IdpfPublicShare<Field64, Field255>> {
         name: "IdpfPublicShare<Field64,Field255>|bits=0".into(),
         class: "IdpfPublicShare<Field64,Field255>".into(),
